@@ -19,7 +19,9 @@ Init == tid = 0 /\ l = 0 /\ TInit(DummyCfg)
 Pick == /\ tid = 0
         /\ \E t \in 1..Len(Traces) : tid' = t /\ l' = 1 /\ TReset(Traces[t].cfg)
 
-GuardsOf(e) == CASE e.ev = "StopCheck"   -> StopCheckGuards(e)
+Skipped(e) == Focus = "stop" /\ e.ev \in {"MakeBatches", "ValBatches", "TrainStep"}   \* projection on the stop events
+GuardsOf(e) == CASE Skipped(e)           -> <<>>
+                 [] e.ev = "StopCheck"   -> StopCheckGuards(e)
                  [] e.ev = "MakeBatches" -> MakeBatchesGuards(e)
                  [] e.ev = "ValBatches"  -> ValBatchesGuards(e)
                  [] e.ev = "TrainStep"   -> TrainStepGuards(e)
@@ -28,7 +30,8 @@ GuardsOf(e) == CASE e.ev = "StopCheck"   -> StopCheckGuards(e)
 
 Consume == /\ tid > 0 /\ l <= Len(Traces[tid].events)
            /\ LET e == Traces[tid].events[l] IN
-                CASE e.ev = "StopCheck"   -> StopCheck(e)
+                CASE Skipped(e)           -> UNCHANGED tvars
+                  [] e.ev = "StopCheck"   -> StopCheck(e)
                   [] e.ev = "MakeBatches" -> MakeBatches(e)
                   [] e.ev = "ValBatches"  -> ValBatches(e)
                   [] e.ev = "TrainStep"   -> TrainStep(e)
@@ -45,5 +48,5 @@ Verdict ==
          AllTrue(gs) \/ PrintT(<<"REJECT", ToJson([tid |-> Traces[tid].tid, l |-> l, clause |-> FirstFalse(gs)])>>)
 
 (* the design invariant must hold along every accepted prefix as well *)
-Inv == tid > 0 => LoopInv
+Inv == (tid > 0 /\ Focus = "all") => LoopInv
 =============================================================================
